@@ -70,12 +70,12 @@ func c15Equal(a, b c15Elem) (bool, bool) {
 func c15NewElem(name string, doc map[string]any) (string, c15Elem) {
 	switch vh.Choose(name+"k", 4) {
 	case 0:
-		s := vh.Bytes(name+"s", 1)
-		vh.Assume(vh.InRange(s[0], 'j', 'm'))
+		// letters, and digits that spell numbers which are also element values
+		s := string([]byte{vh.ByteFrom(name+"s", "015jk")})
 		doc[name] = s
 		return "$." + name, c15Elem{kind: kStr, str: s}
 	case 1:
-		n := float64(1 + vh.Choose(name+"n", 3))
+		n := []float64{0, 1, 5, 10}[vh.Choose(name+"n", 4)]
 		doc[name] = n
 		return "$." + name, c15Elem{kind: kNum, num: n}
 	case 2:
